@@ -1,12 +1,462 @@
 (* Proofs/QuicVarintProofs.v - QUIC variable-length integers (RFC 9000 §16) *)
 From Coq Require Import Lia ZifyBool ZifyNat ZifyN.
-From ReqV Require Import Lib.Bytes Lib.BigEndian Proofs.BigEndianFacts Model.QuicVarint.
+From ReqV Require Import Lib.Bytes Lib.BytesFacts Lib.BigEndian Proofs.BigEndianFacts Model.QuicVarint.
 Open Scope N_scope.
+
+Ltac Zify.zify_post_hook ::= Z.div_mod_to_equations.
+
+(* turn every N.shiftr/N.shiftl by a literal into div/mul by the literal power *)
+Ltac shifts :=
+  repeat match goal with
+  | |- context [N.shiftr ?a ?k] =>
+      rewrite (N.shiftr_div_pow2 a k); let p := eval vm_compute in (2 ^ k) in change (2 ^ k) with p
+  | |- context [N.shiftl ?a ?k] =>
+      rewrite (N.shiftl_mul_pow2 a k); let p := eval vm_compute in (2 ^ k) in change (2 ^ k) with p
+  end.
+
+Lemma u8_ext a b : a mod 256 = b mod 256 -> u8 a = u8 b.
+Proof. intro H. rewrite <- (u8_mod a), <- (u8_mod b), H. reflexivity. Qed.
+
+(* ---- byte-level facts (256-way case analysis) ---- *)
+Lemma top2 b : N.shiftr (N.land (bN b) 192) 6 = bN b / 64.
+Proof. destruct b; vm_compute; reflexivity. Qed.
+Lemma low6 b : N.land (bN b) 63 = bN b mod 64.
+Proof. destruct b; vm_compute; reflexivity. Qed.
+Lemma lor_tag_byte b t : bN b < 64 -> t < 4 -> N.lor (bN b) (t * 64) = bN b + t * 64.
+Proof.
+  intros Hb Ht. assert (T : t = 0 \/ t = 1 \/ t = 2 \/ t = 3) by lia.
+  destruct T as [-> | [-> | [-> | ->]]];
+    destruct b; vm_compute in Hb |- *; first [reflexivity | discriminate Hb].
+Qed.
+Lemma lor_tag x t : x < 64 -> t < 4 -> N.lor x (t * 64) = x + t * 64.
+Proof.
+  intros Hx Ht. rewrite <- (N.mod_small x 256) by lia. rewrite <- bN_u8.
+  apply lor_tag_byte; [rewrite bN_u8, N.mod_small by lia; exact Hx | exact Ht].
+Qed.
+
+(* ---- constants (regenerated from varint.go by gosync) ---- *)
+Lemma consts : maxVarInt1 = 2 ^ 6 - 1 /\ maxVarInt2 = 2 ^ 14 - 1 /\ maxVarInt4 = 2 ^ 30 - 1 /\ maxVarInt8 = 2 ^ 62 - 1.
+Proof. vm_compute. repeat split. Qed.
+
+Definition max1 := 63.  Definition max2 := 16383.  Definition max4 := 1073741823.
+Definition max8 := 4611686018427387903.
+Lemma c1 : maxVarInt1 = 63. Proof. reflexivity. Qed.
+Lemma c2 : maxVarInt2 = 16383. Proof. reflexivity. Qed.
+Lemma c4 : maxVarInt4 = 1073741823. Proof. reflexivity. Qed.
+Lemma c8 : maxVarInt8 = 4611686018427387903. Proof. reflexivity. Qed.
+
+Ltac leb_cases :=
+  rewrite ?c1, ?c2, ?c4, ?c8 in *;
+  repeat match goal with |- context [?a <=? ?b] => destruct (N.leb_spec a b); try lia end.
 
 Lemma varint_out_of_range v : 2 ^ 62 <= v -> vi_len v = None /\ vi_append v = None.
 Proof.
   intro H. change (2 ^ 62) with 4611686018427387904 in H.
-  unfold vi_len, vi_append, maxVarInt1, maxVarInt2, maxVarInt4, maxVarInt8.
-  repeat match goal with |- context [?a <=? ?b] => destruct (N.leb_spec a b); try lia end.
-  split; reflexivity.
+  unfold vi_len, vi_append. leb_cases. split; reflexivity.
+Qed.
+
+(* ---- canonical form: an l-byte varint is the big-endian l-byte number v + tag * 2^(8l-2) ---- *)
+(* tag (the two most significant bits) of each length *)
+Definition vi_tag (l : N) : N := if l =? 1 then 0 else if l =? 2 then 1 else if l =? 4 then 2 else 3.
+Definition vi_form (l v : N) : bytes := be_enc (N.to_nat l) (v + vi_tag l * 2 ^ (8 * l - 2)).
+Definition vi_lenok (l : N) : Prop := l = 1 \/ l = 2 \/ l = 4 \/ l = 8.
+
+Lemma vi_len_spec v :
+  vi_len v = if v <? 2 ^ 6 then Some 1 else if v <? 2 ^ 14 then Some 2
+             else if v <? 2 ^ 30 then Some 4 else if v <? 2 ^ 62 then Some 8 else None.
+Proof.
+  unfold vi_len. change (2 ^ 6) with 64. change (2 ^ 14) with 16384.
+  change (2 ^ 30) with 1073741824. change (2 ^ 62) with 4611686018427387904.
+  leb_cases; repeat match goal with |- context [?a <? ?b] => destruct (N.ltb_spec a b); try lia end; reflexivity.
+Qed.
+
+Lemma vi_len_some v l : vi_len v = Some l -> vi_lenok l /\ v < 2 ^ (8 * l - 2) /\ v < 2 ^ 62.
+Proof.
+  rewrite vi_len_spec. unfold vi_lenok.
+  repeat match goal with |- context [?a <? ?b] => destruct (N.ltb_spec a b) end;
+    intro E; inversion E; subst; cbn [N.mul N.sub Pos.mul Pos.sub Pos.pred_double Pos.sub_mask Pos.double_mask Pos.succ_double_mask Pos.pred_mask] in *.
+  all: change (2 ^ 6) with 64 in *; change (2 ^ 14) with 16384 in *;
+       change (2 ^ 30) with 1073741824 in *; change (2 ^ 62) with 4611686018427387904 in *.
+  all: repeat split; try lia.
+Qed.
+
+Lemma vi_form_1 v : vi_form 1 v = [u8 (N.shiftr (v + 0) 0)].
+Proof. reflexivity. Qed.
+Lemma vi_form_2 v : vi_form 2 v = [u8 (N.shiftr (v + 16384) 8); u8 (N.shiftr (v + 16384) 0)].
+Proof. reflexivity. Qed.
+Lemma vi_form_4 v : vi_form 4 v =
+  [u8 (N.shiftr (v + 2147483648) 24); u8 (N.shiftr (v + 2147483648) 16);
+   u8 (N.shiftr (v + 2147483648) 8); u8 (N.shiftr (v + 2147483648) 0)].
+Proof. reflexivity. Qed.
+Lemma vi_form_8 v : vi_form 8 v =
+  [u8 (N.shiftr (v + 13835058055282163712) 56); u8 (N.shiftr (v + 13835058055282163712) 48);
+   u8 (N.shiftr (v + 13835058055282163712) 40); u8 (N.shiftr (v + 13835058055282163712) 32);
+   u8 (N.shiftr (v + 13835058055282163712) 24); u8 (N.shiftr (v + 13835058055282163712) 16);
+   u8 (N.shiftr (v + 13835058055282163712) 8); u8 (N.shiftr (v + 13835058055282163712) 0)].
+Proof. reflexivity. Qed.
+
+Ltac bytes_eq := repeat (apply (f_equal2 (@cons byte)); [apply u8_ext; shifts; lia|]); try reflexivity.
+
+(* Append writes the canonical form of length Len v *)
+Lemma vi_append_form v l : vi_len v = Some l -> vi_append v = Some (vi_form l v).
+Proof.
+  unfold vi_len, vi_append. leb_cases; intro E; inversion E; subst l; clear E; f_equal; unfold sh8.
+  - rewrite vi_form_1. bytes_eq.
+  - rewrite vi_form_2.
+    assert (Hs : N.shiftr v 8 < 64) by (shifts; lia).
+    rewrite (N.mod_small (N.shiftr v 8) 256) by lia.
+    change 64 with (1 * 64) at 1. rewrite lor_tag by lia. bytes_eq.
+  - rewrite vi_form_4.
+    assert (Hs : N.shiftr v 24 < 64) by (shifts; lia).
+    rewrite (N.mod_small (N.shiftr v 24) 256) by lia.
+    change 128 with (2 * 64) at 1. rewrite lor_tag by lia. bytes_eq.
+  - rewrite vi_form_8.
+    assert (Hs : N.shiftr v 56 < 64) by (shifts; lia).
+    rewrite (N.mod_small (N.shiftr v 56) 256) by lia.
+    change 192 with (3 * 64) at 1. rewrite lor_tag by lia. bytes_eq.
+Qed.
+
+(* ---- decoder: Parse returns the canonical reading of the first 2^tag bytes ---- *)
+Lemma byte_tag_cases f : bN f / 64 = 0 \/ bN f / 64 = 1 \/ bN f / 64 = 2 \/ bN f / 64 = 3.
+Proof. pose proof (bN_lt f). lia. Qed.
+
+Lemma be_dec_1 a : be_dec [a] = bN a.
+Proof. reflexivity. Qed.
+Lemma be_dec_2 a b : be_dec [a; b] = bN a * 256 + bN b.
+Proof. unfold be_dec; cbn [fold_left]. lia. Qed.
+Lemma be_dec_4 a b c d : be_dec [a; b; c; d] = ((bN a * 256 + bN b) * 256 + bN c) * 256 + bN d.
+Proof. unfold be_dec; cbn [fold_left]. lia. Qed.
+Lemma be_dec_8 a b c d e f g h : be_dec [a; b; c; d; e; f; g; h] =
+  ((((((bN a * 256 + bN b) * 256 + bN c) * 256 + bN d) * 256 + bN e) * 256 + bN f) * 256 + bN g) * 256 + bN h.
+Proof. unfold be_dec; cbn [fold_left]. lia. Qed.
+
+Definition vi_width (f : byte) : N := 2 ^ (bN f / 64).
+
+Lemma vi_parse_short f r : lenN (f :: r) < vi_width f -> vi_parse (f :: r) = ViUnexpectedEOF.
+Proof.
+  unfold vi_width, vi_parse. rewrite top2, N.shiftl_1_l. intro H.
+  destruct (N.ltb_spec (lenN (f :: r)) (2 ^ (bN f / 64))); [reflexivity | lia].
+Qed.
+
+Lemma vi_parse_full f r : vi_width f <= lenN (f :: r) ->
+  vi_parse (f :: r) =
+    ViOk (be_dec (firstn (N.to_nat (vi_width f)) (f :: r)) mod 2 ^ (8 * vi_width f - 2)) (vi_width f).
+Proof.
+  unfold vi_width, vi_parse. rewrite top2, low6, N.shiftl_1_l. intro H.
+  destruct (N.ltb_spec (lenN (f :: r)) (2 ^ (bN f / 64))); [lia|].
+  pose proof (bN_lt f) as Hf.
+  destruct (byte_tag_cases f) as [E | [E | [E | E]]]; rewrite E in *.
+  - change (2 ^ 0) with 1 in *. cbn [N.eqb Pos.eqb]. change (N.to_nat 1) with 1%nat.
+    cbn [firstn]. rewrite be_dec_1. change (2 ^ (8 * 1 - 2)) with 64. reflexivity.
+  - change (2 ^ 1) with 2 in *. cbn [N.eqb Pos.eqb]. change (N.to_nat 2) with 2%nat.
+    destruct r as [|c2 r]; [unfold lenN in *; cbn [length] in *; lia|].
+    cbn [firstn]. rewrite be_dec_2. change (2 ^ (8 * 2 - 2)) with 16384.
+    unfold nthN; cbn [nth]. f_equal. shifts. pose proof (bN_lt c2). lia.
+  - change (2 ^ 2) with 4 in *. cbn [N.eqb Pos.eqb]. change (N.to_nat 4) with 4%nat.
+    destruct r as [|c2 [|c3 [|c4 r]]]; try (unfold lenN in *; cbn [length] in *; lia).
+    cbn [firstn]. rewrite be_dec_4. change (2 ^ (8 * 4 - 2)) with 1073741824.
+    unfold nthN; cbn [nth]. f_equal. shifts.
+    pose proof (bN_lt c2). pose proof (bN_lt c3). pose proof (bN_lt c4). lia.
+  - change (2 ^ 3) with 8 in *. cbn [N.eqb Pos.eqb]. change (N.to_nat 8) with 8%nat.
+    destruct r as [|c2 [|c3 [|c4 [|c5 [|c6 [|c7 [|c8 r]]]]]]]; try (unfold lenN in *; cbn [length] in *; lia).
+    cbn [firstn]. rewrite be_dec_8. change (2 ^ (8 * 8 - 2)) with 4611686018427387904.
+    unfold nthN; cbn [nth]. f_equal. shifts.
+    pose proof (bN_lt c2). pose proof (bN_lt c3). pose proof (bN_lt c4). pose proof (bN_lt c5).
+    pose proof (bN_lt c6). pose proof (bN_lt c7). pose proof (bN_lt c8). lia.
+Qed.
+
+(* Read = Parse on the same bytes (value, consumption), every truncation is the reader's error *)
+Lemma vi_read_parse s :
+  vi_read s = match vi_parse s with
+              | ViOk v n => Some (v, skipn (N.to_nat n) s)
+              | _ => None
+              end.
+Proof.
+  destruct s as [|f r]; [reflexivity|].
+  unfold vi_read, vi_parse. rewrite top2, N.shiftl_1_l.
+  destruct (byte_tag_cases f) as [E | [E | [E | E]]]; rewrite E.
+  - change (2 ^ 0) with 1. cbn [N.eqb Pos.eqb].
+    destruct (N.ltb_spec (lenN (f :: r)) 1) as [L|L]; [unfold lenN in L; cbn [length] in L; lia|].
+    reflexivity.
+  - change (2 ^ 1) with 2. cbn [N.eqb Pos.eqb].
+    destruct r as [|c2 r]; [reflexivity|].
+    destruct (N.ltb_spec (lenN (f :: c2 :: r)) 2) as [L|L]; [unfold lenN in L; cbn [length] in L; lia|].
+    reflexivity.
+  - change (2 ^ 2) with 4. cbn [N.eqb Pos.eqb].
+    destruct r as [|c2 [|c3 [|c4 r]]]; try reflexivity.
+    destruct (N.ltb_spec (lenN (f :: c2 :: c3 :: c4 :: r)) 4) as [L|L]; [unfold lenN in L; cbn [length] in L; lia|].
+    reflexivity.
+  - change (2 ^ 3) with 8. cbn [N.eqb Pos.eqb].
+    destruct r as [|c2 [|c3 [|c4 [|c5 [|c6 [|c7 [|c8 r]]]]]]]; try reflexivity.
+    destruct (N.ltb_spec (lenN (f :: c2 :: c3 :: c4 :: c5 :: c6 :: c7 :: c8 :: r)) 8) as [L|L];
+      [unfold lenN in L; cbn [length] in L; lia|].
+    reflexivity.
+Qed.
+
+(* ---- the canonical form and the decoder ---- *)
+Ltac lenok_cases H := destruct H as [-> | [-> | [-> | ->]]].
+
+Ltac pows := change (2 ^ (8 * 1 - 2)) with 64 in *; change (2 ^ (8 * 2 - 2)) with 16384 in *;
+  change (2 ^ (8 * 4 - 2)) with 1073741824 in *; change (2 ^ (8 * 8 - 2)) with 4611686018427387904 in *.
+
+Lemma vi_form_length l v : length (vi_form l v) = N.to_nat l.
+Proof. apply length_be_enc. Qed.
+
+Lemma vi_form_dec l v : vi_lenok l -> v < 2 ^ (8 * l - 2) ->
+  be_dec (vi_form l v) = v + vi_tag l * 2 ^ (8 * l - 2).
+Proof.
+  intros L H. unfold vi_form. apply be_dec_enc_small.
+  lenok_cases L; pows; unfold vi_tag; cbn [N.eqb Pos.eqb].
+  - change (256 ^ N.of_nat (N.to_nat 1)) with 256. lia.
+  - change (256 ^ N.of_nat (N.to_nat 2)) with 65536. lia.
+  - change (256 ^ N.of_nat (N.to_nat 4)) with 4294967296. lia.
+  - change (256 ^ N.of_nat (N.to_nat 8)) with 18446744073709551616. lia.
+Qed.
+
+Lemma vi_form_head l v : vi_lenok l -> v < 2 ^ (8 * l - 2) ->
+  exists f r, vi_form l v = f :: r /\ vi_width f = l.
+Proof.
+  intros L H. unfold vi_width.
+  lenok_cases L; pows.
+  - rewrite vi_form_1. eexists; eexists; split; [reflexivity|].
+    rewrite bN_u8. replace (N.shiftr (v + 0) 0 mod 256 / 64) with 0; [reflexivity|]. shifts. lia.
+  - rewrite vi_form_2. eexists; eexists; split; [reflexivity|].
+    rewrite bN_u8. replace (N.shiftr (v + 16384) 8 mod 256 / 64) with 1; [reflexivity|]. shifts. lia.
+  - rewrite vi_form_4. eexists; eexists; split; [reflexivity|].
+    rewrite bN_u8. replace (N.shiftr (v + 2147483648) 24 mod 256 / 64) with 2; [reflexivity|]. shifts. lia.
+  - rewrite vi_form_8. eexists; eexists; split; [reflexivity|].
+    rewrite bN_u8. replace (N.shiftr (v + 13835058055282163712) 56 mod 256 / 64) with 3; [reflexivity|]. shifts. lia.
+Qed.
+
+Lemma lenN_app a b : lenN (a ++ b) = lenN a + lenN b.
+Proof. unfold lenN. rewrite app_length. lia. Qed.
+
+Lemma vi_form_lenN l v : lenN (vi_form l v) = l.
+Proof. unfold lenN. rewrite vi_form_length. lia. Qed.
+
+(* every canonical form, minimal or not, decodes to the embedded value, whatever follows *)
+Lemma vi_parse_form l v rest : vi_lenok l -> v < 2 ^ (8 * l - 2) ->
+  vi_parse (vi_form l v ++ rest) = ViOk v l.
+Proof.
+  intros L H. destruct (vi_form_head l v L H) as (f & r & E & W).
+  pose proof (vi_form_lenN l v) as HL. pose proof (vi_form_length l v) as HL'.
+  pose proof (vi_form_dec l v L H) as D.
+  rewrite E in *. cbn [app]. rewrite vi_parse_full.
+  2:{ rewrite W. change (f :: r ++ rest) with ((f :: r) ++ rest). rewrite lenN_app. lia. }
+  rewrite W. change (f :: r ++ rest) with ((f :: r) ++ rest).
+  rewrite <- HL'. rewrite firstn_app_exact. rewrite D. f_equal.
+  rewrite N.mod_add by (apply N.pow_nonzero; lia). apply N.mod_small. exact H.
+Qed.
+
+Lemma vi_read_form l v rest : vi_lenok l -> v < 2 ^ (8 * l - 2) ->
+  vi_read (vi_form l v ++ rest) = Some (v, rest).
+Proof.
+  intros L H. rewrite vi_read_parse, vi_parse_form by assumption.
+  rewrite <- (vi_form_length l v). rewrite skipn_app_exact. reflexivity.
+Qed.
+
+(* conversely: whatever Parse accepts IS a canonical form of the value it returns *)
+Lemma vi_width_ok f : vi_lenok (vi_width f).
+Proof.
+  unfold vi_width, vi_lenok.
+  destruct (byte_tag_cases f) as [E | [E | [E | E]]]; rewrite E; vm_compute; tauto.
+Qed.
+
+Lemma vi_parse_inv s v n : vi_parse s = ViOk v n ->
+  vi_lenok n /\ v < 2 ^ (8 * n - 2) /\ n <= lenN s /\ firstn (N.to_nat n) s = vi_form n v.
+Proof.
+  destruct s as [|f r]; [discriminate|].
+  destruct (N.lt_ge_cases (lenN (f :: r)) (vi_width f)) as [S|S].
+  - rewrite vi_parse_short by exact S. discriminate.
+  - rewrite vi_parse_full by exact S. intro E.
+    assert (En : n = vi_width f) by congruence.
+    assert (Ev : v = be_dec (firstn (N.to_nat (vi_width f)) (f :: r)) mod 2 ^ (8 * vi_width f - 2)) by congruence.
+    clear E. subst n.
+    pose proof (vi_width_ok f) as L.
+    assert (P : 2 ^ (8 * vi_width f - 2) <> 0) by (apply N.pow_nonzero; lia).
+    split; [exact L|]. split; [rewrite Ev; apply N.mod_lt; exact P|]. split; [exact S|].
+    set (p := firstn (N.to_nat (vi_width f)) (f :: r)) in *.
+    assert (Lp : length p = N.to_nat (vi_width f)).
+    { unfold p. apply firstn_length_le. unfold lenN in S. lia. }
+    unfold vi_form. rewrite <- Lp.
+    replace (v + vi_tag (vi_width f) * 2 ^ (8 * vi_width f - 2)) with (be_dec p);
+      [symmetry; apply be_enc_dec|].
+    rewrite Ev. clear Ev. rewrite (N.div_mod (be_dec p) (2 ^ (8 * vi_width f - 2))) at 1 by exact P.
+    rewrite N.add_comm. f_equal. rewrite N.mul_comm. f_equal.
+    (* the two top bits of the first byte are the tag of the width *)
+    pose proof (bN_lt f) as Hf. unfold p, vi_width, vi_tag in *. clear p Lp P L.
+    destruct (byte_tag_cases f) as [E | [E | [E | E]]]; rewrite E in *.
+    + change (2 ^ 0) with 1 in *. change (N.to_nat 1) with 1%nat. cbn [firstn N.eqb Pos.eqb].
+      rewrite be_dec_1. pows. lia.
+    + change (2 ^ 1) with 2 in *. change (N.to_nat 2) with 2%nat.
+      destruct r as [|c2 r]; [unfold lenN in *; cbn [length] in *; lia|].
+      cbn [firstn N.eqb Pos.eqb]. rewrite be_dec_2. pows. pose proof (bN_lt c2). lia.
+    + change (2 ^ 2) with 4 in *. change (N.to_nat 4) with 4%nat.
+      destruct r as [|c2 [|c3 [|c4 r]]]; try (unfold lenN in *; cbn [length] in *; lia).
+      cbn [firstn N.eqb Pos.eqb]. rewrite be_dec_4. pows.
+      pose proof (bN_lt c2). pose proof (bN_lt c3). pose proof (bN_lt c4). lia.
+    + change (2 ^ 3) with 8 in *. change (N.to_nat 8) with 8%nat.
+      destruct r as [|c2 [|c3 [|c4 [|c5 [|c6 [|c7 [|c8 r]]]]]]]; try (unfold lenN in *; cbn [length] in *; lia).
+      cbn [firstn N.eqb Pos.eqb]. rewrite be_dec_8. pows.
+      pose proof (bN_lt c2). pose proof (bN_lt c3). pose proof (bN_lt c4). pose proof (bN_lt c5).
+      pose proof (bN_lt c6). pose proof (bN_lt c7). pose proof (bN_lt c8). lia.
+Qed.
+
+(* ---- AppendWithLen writes the canonical form of the requested length ---- *)
+Lemma be_enc_1 n : be_enc 1 n = [u8 (N.shiftr n 0)]. Proof. reflexivity. Qed.
+Lemma be_enc_2 n : be_enc 2 n = [u8 (N.shiftr n 8); u8 (N.shiftr n 0)]. Proof. reflexivity. Qed.
+Lemma be_enc_4 n : be_enc 4 n = [u8 (N.shiftr n 24); u8 (N.shiftr n 16); u8 (N.shiftr n 8); u8 (N.shiftr n 0)].
+Proof. reflexivity. Qed.
+
+Ltac bytes_eq' :=
+  change x00 with (u8 0); change x40 with (u8 64); change x80 with (u8 128); change xc0 with (u8 192);
+  repeat (apply (f_equal2 (@cons byte)); [apply u8_ext; shifts; lia|]); try reflexivity.
+
+Lemma vi_append_with_len_form v l len :
+  vi_lenok len -> vi_len v = Some l -> l <= len -> vi_append_with_len v len = Some (vi_form len v).
+Proof.
+  intros L Hl Hle. unfold vi_append_with_len. rewrite Hl.
+  destruct (vi_len_some v l Hl) as (Ll & Hv & _).
+  destruct (N.eqb_spec l len) as [->|Ne].
+  - replace (negb _) with false by (lenok_cases L; reflexivity). apply vi_append_form; exact Hl.
+  - destruct (N.ltb_spec len l); [lia|].
+    lenok_cases L; lenok_cases Ll; try lia; pows; cbn [negb orb N.eqb Pos.eqb]; f_equal.
+    + change (N.to_nat (2 - 1 - 1)) with 0%nat. change (N.to_nat 1) with 1%nat.
+      cbn [repeat app]. rewrite be_enc_1, vi_form_2. bytes_eq'.
+    + change (N.to_nat (4 - 1 - 1)) with 2%nat. change (N.to_nat 1) with 1%nat.
+      cbn [repeat app]. rewrite be_enc_1, vi_form_4. bytes_eq'.
+    + change (N.to_nat (4 - 2 - 1)) with 1%nat. change (N.to_nat 2) with 2%nat.
+      cbn [repeat app]. rewrite be_enc_2, vi_form_4. bytes_eq'.
+    + change (N.to_nat (8 - 1 - 1)) with 6%nat. change (N.to_nat 1) with 1%nat.
+      cbn [repeat app]. rewrite be_enc_1, vi_form_8. bytes_eq'.
+    + change (N.to_nat (8 - 2 - 1)) with 5%nat. change (N.to_nat 2) with 2%nat.
+      cbn [repeat app]. rewrite be_enc_2, vi_form_8. bytes_eq'.
+    + change (N.to_nat (8 - 4 - 1)) with 3%nat. change (N.to_nat 4) with 4%nat.
+      cbn [repeat app]. rewrite be_enc_4, vi_form_8. bytes_eq'.
+Qed.
+
+(* the three panics of AppendWithLen *)
+Lemma vi_append_with_len_rejects v len :
+  vi_append_with_len v len = None <->
+  (~ vi_lenok len \/ 2 ^ 62 <= v \/ exists l, vi_len v = Some l /\ len < l).
+Proof.
+  split.
+  - intro H. destruct (N.eq_dec len 1) as [E1|N1]; [|destruct (N.eq_dec len 2) as [E2|N2];
+      [|destruct (N.eq_dec len 4) as [E4|N4]; [|destruct (N.eq_dec len 8) as [E8|N8]]]].
+    5:{ left. unfold vi_lenok. lia. }
+    all: right; destruct (vi_len v) as [l|] eqn:Hl.
+    all: try (left; rewrite vi_len_spec in Hl;
+              repeat match type of Hl with context [?a <? ?b] => destruct (N.ltb_spec a b) end;
+              try discriminate; assumption).
+    all: right; exists l; split; [reflexivity|].
+    all: destruct (N.lt_ge_cases len l) as [Lt|Ge]; [exact Lt|].
+    all: rewrite (vi_append_with_len_form v l len) in H; [discriminate | unfold vi_lenok; lia | exact Hl | exact Ge].
+  - intros [H | [H | (l & Hl & Lt)]]; unfold vi_append_with_len.
+    + destruct (N.eqb_spec len 1); [exfalso; apply H; unfold vi_lenok; lia|].
+      destruct (N.eqb_spec len 2); [exfalso; apply H; unfold vi_lenok; lia|].
+      destruct (N.eqb_spec len 4); [exfalso; apply H; unfold vi_lenok; lia|].
+      destruct (N.eqb_spec len 8); [exfalso; apply H; unfold vi_lenok; lia|]. reflexivity.
+    + destruct (varint_out_of_range v H) as [-> _]. destruct (negb _); reflexivity.
+    + rewrite Hl. destruct (negb _); [reflexivity|].
+      destruct (N.eqb_spec l len); [lia|]. destruct (N.ltb_spec len l); [reflexivity | lia].
+Qed.
+
+(* ---- the theorems ---- *)
+
+Theorem varint_len v :
+  (v < 2 ^ 6 -> vi_len v = Some 1) /\ (2 ^ 6 <= v < 2 ^ 14 -> vi_len v = Some 2) /\
+  (2 ^ 14 <= v < 2 ^ 30 -> vi_len v = Some 4) /\ (2 ^ 30 <= v < 2 ^ 62 -> vi_len v = Some 8) /\
+  (2 ^ 62 <= v -> vi_len v = None) /\
+  (forall l, vi_len v = Some l -> exists e, vi_append v = Some e /\ lenN e = l).
+Proof.
+  rewrite vi_len_spec.
+  repeat split; intros;
+    repeat match goal with |- context [?a <? ?b] => destruct (N.ltb_spec a b); try lia end; try reflexivity.
+  rewrite <- vi_len_spec in H. exists (vi_form l v). split; [apply vi_append_form; exact H | apply vi_form_lenN].
+Qed.
+
+Theorem varint_roundtrip v rest : v < 2 ^ 62 ->
+  exists e l, vi_append v = Some e /\ vi_len v = Some l /\ lenN e = l /\
+              vi_parse (e ++ rest) = ViOk v l /\ vi_read (e ++ rest) = Some (v, rest).
+Proof.
+  intro H. destruct (vi_len v) as [l|] eqn:Hl.
+  2:{ rewrite vi_len_spec in Hl.
+      repeat match type of Hl with context [?a <? ?b] => destruct (N.ltb_spec a b) end; try discriminate; lia. }
+  destruct (vi_len_some v l Hl) as (L & Hv & _).
+  exists (vi_form l v), l. split; [apply vi_append_form; exact Hl|]. split; [reflexivity|].
+  split; [apply vi_form_lenN|]. split; [apply vi_parse_form | apply vi_read_form]; assumption.
+Qed.
+
+(* Append uses the shortest form: no accepted encoding of v is shorter than Append's *)
+Theorem varint_minimal s v n l : vi_parse s = ViOk v n -> vi_len v = Some l -> l <= n.
+Proof.
+  intros P Hl. destruct (vi_parse_inv s v n P) as (L & Hv & _).
+  rewrite vi_len_spec in Hl.
+  repeat match type of Hl with context [?a <? ?b] => destruct (N.ltb_spec a b) end;
+    inversion Hl; subst l; lenok_cases L; pows;
+    change (2 ^ 6) with 64 in *; change (2 ^ 14) with 16384 in *; change (2 ^ 30) with 1073741824 in *; lia.
+Qed.
+
+(* every 1/2/4/8-byte form (minimal or not) that can hold v decodes to v; every strict prefix of
+   it is an error (empty: io.EOF, otherwise io.ErrUnexpectedEOF) *)
+Theorem varint_decode_total v len : vi_lenok len -> v < 2 ^ (8 * len - 2) ->
+  exists e, vi_append_with_len v len = Some e /\ lenN e = len /\
+    (forall rest, vi_parse (e ++ rest) = ViOk v len /\ vi_read (e ++ rest) = Some (v, rest)) /\
+    vi_parse (firstn 0 e) = ViEOF /\
+    (forall k, (0 < k)%nat -> (k < N.to_nat len)%nat ->
+       vi_parse (firstn k e) = ViUnexpectedEOF /\ vi_read (firstn k e) = None).
+Proof.
+  intros L H. exists (vi_form len v).
+  assert (Hl : exists l, vi_len v = Some l /\ l <= len).
+  { rewrite vi_len_spec. lenok_cases L; pows;
+      repeat match goal with |- context [?a <? ?b] => destruct (N.ltb_spec a b) end;
+      change (2 ^ 6) with 64 in *; change (2 ^ 14) with 16384 in *; change (2 ^ 30) with 1073741824 in *;
+      change (2 ^ 62) with 4611686018427387904 in *;
+      try (eexists; split; [reflexivity | lia]); lia. }
+  destruct Hl as (l & Hl & Hle).
+  split; [apply (vi_append_with_len_form v l len); assumption|].
+  split; [apply vi_form_lenN|].
+  split; [intro rest; split; [apply vi_parse_form | apply vi_read_form]; assumption|].
+  split; [reflexivity|].
+  intros k K0 K1. destruct (vi_form_head len v L H) as (f & r & E & W).
+  pose proof (vi_form_length len v) as HL. rewrite E in *.
+  destruct k as [|k]; [lia|]. cbn [firstn].
+  assert (S : vi_parse (f :: firstn k r) = ViUnexpectedEOF).
+  { apply vi_parse_short. rewrite W. unfold lenN. cbn [length] in *. rewrite firstn_length. lia. }
+  split; [exact S|]. rewrite vi_read_parse, S. reflexivity.
+Qed.
+
+(* whatever Parse accepts is one of those forms: the decoder accepts nothing else *)
+Theorem varint_accepts_only_forms s v n : vi_parse s = ViOk v n ->
+  vi_lenok n /\ v < 2 ^ (8 * n - 2) /\ v < 2 ^ 62 /\
+  exists rest, s = vi_form n v ++ rest /\ vi_append_with_len v n = Some (vi_form n v).
+Proof.
+  intro P. destruct (vi_parse_inv s v n P) as (L & Hv & Hn & F).
+  split; [exact L|]. split; [exact Hv|].
+  assert (V62 : v < 2 ^ 62).
+  { lenok_cases L; pows; change (2 ^ 62) with 4611686018427387904; lia. }
+  split; [exact V62|].
+  exists (skipn (N.to_nat n) s). split; [rewrite <- F; symmetry; apply firstn_skipn|].
+  destruct (varint_decode_total v n L Hv) as (e & A & _).
+  destruct (vi_len v) as [l|] eqn:Hl.
+  - apply (vi_append_with_len_form v l n L Hl). exact (varint_minimal s v n l P Hl).
+  - exfalso. rewrite vi_len_spec in Hl.
+    repeat match type of Hl with context [?a <? ?b] => destruct (N.ltb_spec a b) end; try discriminate; lia.
+Qed.
+
+(* prefix-freeness: no complete encoding is a proper prefix of another complete encoding, and a
+   complete encoding is read the same whatever follows it *)
+Theorem varint_prefix_free s1 s2 x v1 v2 :
+  vi_parse s1 = ViOk v1 (lenN s1) -> vi_parse s2 = ViOk v2 (lenN s2) -> s2 = s1 ++ x ->
+  x = [] /\ v1 = v2.
+Proof.
+  intros P1 P2 ->. destruct (vi_parse_inv _ _ _ P1) as (L & Hv & _ & F).
+  assert (F' : s1 = vi_form (lenN s1) v1).
+  { rewrite <- F. unfold lenN. rewrite Nat2N.id, firstn_all. reflexivity. }
+  remember (lenN s1) as n eqn:Hn.
+  assert (P3 : vi_parse (s1 ++ x) = ViOk v1 n) by (rewrite F'; apply vi_parse_form; assumption).
+  rewrite P3 in P2. assert (V : v1 = v2) by congruence.
+  assert (E : n = lenN (s1 ++ x)) by congruence.
+  rewrite lenN_app, <- Hn in E. split; [|exact V].
+  destruct x; [reflexivity | unfold lenN in E; cbn [length] in E; lia].
 Qed.
